@@ -17,6 +17,9 @@ What the primitives stand for (Python side, see the extractor for the exact synt
                 sees the change (aliasing), so it is no longer a valid backup.
 * `save f`      `old = self.f`   (one backup slot per field)
 * `restore f`   `self.f = old`
+* `saveC f`     `old = list(self.f)` / `old = self.f.cssText`: a *copy* of the content, which later in-place changes
+                of `self.f` do not reach
+* `restoreC f`  `del self.f[:]; list.extend(self.f, old)` / `self.f.cssText = old`: the content is put back
 * `guard`       `self._checkReadonly()` (`util.py:36`): raises NoModificationAllowedErr iff read-only
 * `raise`       `self._log.error(...)` without `neverraise` while `cssutils.log.raiseExceptions` is on
                 (`errorhandler.py:95-103`), or a literal `raise xml.dom.X`
@@ -41,6 +44,8 @@ inductive Stmt where
   | mutate (f : Field)
   | save (f : Field)
   | restore (f : Field)
+  | saveC (f : Field)
+  | restoreC (f : Field)
   | guard
   | raise
   | mayRaise
@@ -81,6 +86,7 @@ so `assign`/`mutate` always produce a value different from all earlier ones. -/
 structure St where
   cur : Field → Nat
   saved : Field → Nat
+  copies : Field → Nat
   flags : Flag → Bool
   readonly : Bool
   next : Nat
@@ -134,6 +140,8 @@ def run (fuel : Nat) (sc : Stmt) (st : St) (os : Outcomes) : Res :=
     | .mutate f => ⟨.norm, st.mutate f, os⟩
     | .save f => ⟨.norm, st.setSaved f (st.cur f), os⟩
     | .restore f => ⟨.norm, st.setCur f (st.saved f), os⟩
+    | .saveC f => ⟨.norm, { st with copies := fun g => if g = f then st.cur f else st.copies g }, os⟩
+    | .restoreC f => ⟨.norm, st.setCur f (st.copies f), os⟩
     | .guard => if st.readonly then ⟨.roExc, st, os⟩ else ⟨.norm, st, os⟩
     | .raise => ⟨.exc, st, os⟩
     | .mayRaise =>
@@ -195,6 +203,7 @@ flags whose value is certainly known. Joining two paths intersects. -/
 structure Abs where
   clean : List Field            -- certainly holds its entry value
   valid : List Field            -- the backup slot certainly holds the entry value of the field
+  cvalid : List Field           -- the content copy certainly holds the entry value of the field
   fresh : List Field            -- certainly holds an object created after entry (so no backup aliases it)
   known : List (Flag × Bool)
   nro : Bool                    -- the read-only guard has been passed: the object is certainly not read-only
@@ -202,15 +211,17 @@ structure Abs where
   deriving Repr, DecidableEq, Inhabited
 
 def Abs.meet (a b : Abs) : Abs :=
-  ⟨a.clean.filter (· ∈ b.clean), a.valid.filter (· ∈ b.valid), a.fresh.filter (· ∈ b.fresh),
+  ⟨a.clean.filter (· ∈ b.clean), a.valid.filter (· ∈ b.valid), a.cvalid.filter (· ∈ b.cvalid),
+   a.fresh.filter (· ∈ b.fresh),
    a.known.filter (· ∈ b.known), a.nro && b.nro, a.isro && b.isro⟩
 
 /-- `a ⊑ b`: everything `a` claims, `b` claims too (so `a` is the weaker, safer description) -/
 def Abs.le (a b : Abs) : Bool :=
-  a.clean.all (· ∈ b.clean) && a.valid.all (· ∈ b.valid) && a.fresh.all (· ∈ b.fresh) &&
+  a.clean.all (· ∈ b.clean) && a.valid.all (· ∈ b.valid) && a.cvalid.all (· ∈ b.cvalid) &&
+  a.fresh.all (· ∈ b.fresh) &&
   a.known.all (· ∈ b.known) && (!a.nro || b.nro) && (!a.isro || b.isro)
 
-def Abs.bot : Abs := ⟨[], [], [], [], false, false⟩
+def Abs.bot : Abs := ⟨[], [], [], [], [], false, false⟩
 
 def omeet : Option Abs → Option Abs → Option Abs
   | none, b => b
@@ -292,6 +303,11 @@ def post (sc : Stmt) (a : Abs) : Post :=
   | .restore f =>
     { norm := some { a with clean := if f ∈ a.valid then f :: a.clean else a.clean.filter (· ≠ f),
                             fresh := a.fresh.filter (· ≠ f) } }
+  | .saveC f =>
+    { norm := some { a with cvalid := if f ∈ a.clean then f :: a.cvalid else a.cvalid.filter (· ≠ f) } }
+  | .restoreC f =>
+    { norm := some { a with clean := if f ∈ a.cvalid then f :: a.clean else a.clean.filter (· ≠ f),
+                            fresh := a.fresh.filter (· ≠ f) } }
   | .guard =>
     if a.isro then { roExc := some a }
     else if a.nro then { norm := some a } else { norm := some { a with nro := true }, roExc := some a }
@@ -340,10 +356,10 @@ structure Script where
   body : Stmt
   deriving Repr, Inhabited
 
-def Abs.entry (fs : List Field) : Abs := ⟨fs, [], [], [], false, false⟩
+def Abs.entry (fs : List Field) : Abs := ⟨fs, [], [], [], [], false, false⟩
 
 /-- entry state of a read-only object -/
-def Abs.entryRO (fs : List Field) : Abs := ⟨fs, [], [], [], false, true⟩
+def Abs.entryRO (fs : List Field) : Abs := ⟨fs, [], [], [], [], false, true⟩
 
 /-- every field of the object is certainly unchanged -/
 def Abs.allClean (fs : List Field) (a : Abs) : Bool := fs.all (· ∈ a.clean)
@@ -382,7 +398,7 @@ def guardedFirst : Stmt → Bool
 
 /-- initial concrete state for drivers/examples: field `f` holds version `f`, backups hold junk -/
 def St.init (readonly : Bool) : St :=
-  { cur := fun f => if f < 1000000 then f else 0, saved := fun _ => 1000000, flags := fun _ => false, readonly := readonly,
+  { cur := fun f => if f < 1000000 then f else 0, saved := fun _ => 1000000, copies := fun _ => 1000001, flags := fun _ => false, readonly := readonly,
     next := 2000000, trace := [] }
 
 end CssVerif.Mutators
